@@ -19,7 +19,9 @@ What is a parameter / abstract
   messages, in snapshot order and without repetition (fix 5288904: `snapshot.getMessagesInRange`
   de-duplicates; fix 071c9b5: `Mailbox.Copy` / `Mailbox.Move` sort the list by UID before they hand it on — the model
   takes the list as handed on, no theorem depends on its order); for EXPUNGE / UID EXPUNGE / CLOSE the list holds the messages the snapshot shows as
-  `\Deleted` (`toExpunge`, `getAllMessagesIDsMarkedDelete`).  The selected mailbox is given by name
+  `\Deleted` (`toExpunge`, `getAllMessagesIDsMarkedDelete`) — since gluon 9c5a27f without the entries whose removal is
+  pending in the session (`State.pendingExpunges`: a `*expunge` responder in `state.res`; the filter itself is
+  `Sel.notPending` in `Model/SelState.lean`, which hands the filtered list on to `Cmd.expunge`).  The selected mailbox is given by name
   and looked up when the command runs (the code keeps its internal id from SELECT; the set of
   mailboxes does not change inside a C03 history).
 * A literal is its bytes plus what the code reads from it: the `X-Pm-Gluon-Id` header (`gid`) and
@@ -36,14 +38,16 @@ What is a parameter / abstract
   / EXPUNGE *inside* the recovery mailbox, are C20's model (`Model/Append.lean`): here the selected
   mailbox being the recovery mailbox is answered `outOfScope`.
 * The session layer's `validateStoreFlags` (a flag list naming `\Recent` is answered BAD before anything runs) is part
-  of `step` (`Answer.bad`); the read-only check of EXAMINEd sessions is not (sessions are read-write).
+  of `step` (`Answer.bad`); the read-only check of EXAMINEd sessions is not: it is `Model/SelState.lean` (SELECT / EXAMINE /
+  CLOSE, `state.ro`, the handlers' checks) on top of this file.
 * Go map iteration order (`for _, flag := range remainingFlags`, `ToSliceUnsorted`) is the list order
   of the model's `FSet`; no result depends on it beyond the order of rows in `message_flags_v2`.
 * The limit check of `AppendRegular` runs in its own read transaction before the write (C17
   `check-outside-tx`); here both run in one step.
 
 Repairs of the message commands the model follows: 8be31cc, b3abd4e (index, via the call-site facts), 6649146, 12c5535,
-5288904, 071c9b5, 45f4598 (index: `RemoveFlagFromMessages … COLLATE NOCASE`), 7feeba5, 971d4f3 (`actionMove`).
+5288904, 071c9b5, 45f4598 (index: `RemoveFlagFromMessages … COLLATE NOCASE`), 7feeba5, 971d4f3 (`actionMove`), 9c5a27f
+(`Mailbox.Expunge`, in `Model/SelState.lean`).
 
 Core Lean only.
 -/
